@@ -31,7 +31,8 @@ LEVEL_TEXT = ("Every call history of up to 3 run() calls (12 argument variants) 
               "accumulator plus every corpus input, is executed on the real code and the invariants are evaluated in every visited "
               "state; cross-process and hash-seed equality on a stated finite seed set. Bounded model checking of the implementation, "
               "no abstraction gap."
-              " Inputs are chosen so that every per-run scanner variable and lexer carrier is left in a non-default state by some input (measured after the first run; an unperturbed variable is a harness error); all ordered input pairs are also run on two successive objects in one process and compared with digests computed by brand-new interpreters, and a case that fails only inside a long-lived worker is itself reported.")
+              " Inputs are chosen so that every per-run scanner variable and lexer carrier is left in a non-default state by some input (measured after the first run; an unperturbed variable is a harness error); all ordered input pairs are also run on two successive objects in one process and compared with digests computed by brand-new interpreters, and a case that fails only inside a long-lived worker is itself reported."
+              ' Wave 6: foreign-key columns the table does not declare, under 5 hash seeds.')
 LEVEL_NOTE = ("Assumes state relevant to repeatability is reachable within 3 calls (all accumulators are per-object lists/strings "
               "reset or not per run); hash-seed independence only on seeds {0,1,2,3,VERIF_SEED}.")
 ASSUMPTIONS = ["reference results are computed on fresh objects before the object under test is constructed",
